@@ -590,7 +590,7 @@ Definition ctor_ok (sh : list Z) (ch md : lab) : bool :=
                    | LOne _ => false
                    end else true).
 
-Definition concat (dm : cdim) (arrs : list pd) : res :=
+Definition concat_pd (dm : cdim) (arrs : list pd) : res :=
   match ensure_dim arrs dm with
   | inl e => RErr e
   | inr [] => RErr EIndex
@@ -681,7 +681,7 @@ Definition pieces (x : pd) (ixss : list (list index)) : err + list pd :=
 Definition check_concat (x : pd) (ixss : list (list index)) (dm : cdim) (got : res) : bool :=
   match pieces x ixss with
   | inl _ => false
-  | inr ps => eqb_res (concat dm ps) got
+  | inr ps => eqb_res (concat_pd dm ps) got
   end.
 
 (* the same checks against the code before the repairs (used only when the harness is pointed at an unrepaired tree
@@ -693,7 +693,7 @@ Definition check_getitems_gen (rep : bool) (x : pd) (ixs : list index) (got : re
 Definition check_concat_lit (ps : list res) (dm : cdim) (got : res) : bool :=
   match all_arrays ps with
   | inl _ => false
-  | inr l => eqb_res (concat dm l) got
+  | inr l => eqb_res (concat_pd dm l) got
   end.
 
 (* arithmetic / copy / astype glue: the result carries the annotations of the annotated operand *)
